@@ -375,7 +375,7 @@ fn search(b: &Board, tf: &ThreeFold, k: u64, positional: bool) -> Result<(), Str
             }
             Ok(())
         }
-        Err(SearchError::Runaway) => Err(format!("search with limit {k} does not return after expiry")),
+        Err(SearchError::Runaway) | Err(SearchError::Unpolled) => Err(format!("search with limit {k} does not return after expiry")),
         Err(SearchError::Panic(p)) => Err(format!("search with limit {k}: panic: {p}")),
     }
 }
